@@ -35,6 +35,8 @@ func checkC04(r *core.Run) {
 	r.Rule("T-charge: one SendCoinsFromAccountToModule per success path, not in a loop, amount ≡ persisted Order.Amount, charge on every path to the order's persistence")
 	r.Rule("E7-flow: closed table of money flows (modules, counter-party, amount form) — any new or altered outflow is reported")
 	r.Rule("T-refund-booked: a refund paid from the market escrow for an order that stays alive lowers Order.Amount by the refunded coin and the order is persisted, in the same function")
+	r.Rule("T-loopvar: in the storage handlers no address of a variable re-assigned per loop iteration is stored into a slice/field inside its loop (the orders collected for the shard hand-over must be distinct records: an aliased list rewrites one order twice and leaves the others pointing at a removed shard, which is never refunded or released)")
+	ruleLoopVarAddr(r, "T-loopvar", "sao/keeper.msgServer.")
 	r.Assume(aDeps)
 	r.Assume(aCG)
 	ruleFlows(r, "C04")
